@@ -495,18 +495,23 @@ static void run_ocp(Json &out, const TE &te, Observer &ob, const OcpArgs &a) {
     method(ms, ob, "eval_q_N", [&](Json &j) { vec o = vec::Constant(nx, F); te.eval_q_N(xs, a.hN.topRows(nh_N), o); j.v("o", o); });
     method(ms, ob, "eval_add_Q", [&](Json &j) { mat Q = mat::Constant(nx, nx, 1); te.eval_add_Q(a.t, a.x, a.h.topRows(nh), Q); j.v("o", Q.reshaped()); });
     // the default eval_add_Q_N forwards (x, h_N) to eval_add_Q(N, xu, h): pass views into buffers that are long enough for both
-    method(ms, ob, "eval_add_Q_N", [&](Json &j) { mat Q = mat::Constant(nx, nx, 1); te.eval_add_Q_N(xs, a.hN.topRows(nh_N), Q); j.v("o", Q.reshaped()); });
+    method(ms, ob, "eval_add_Q_N", [&](Json &j) { mat Q = mat::Constant(nx, nx, 1); te.eval_add_Q_N(xs, a.hN.topRows(nh_N), Q); j.v("o", Q.reshaped());
+        // documented default: the terminal function is the stage function at time step N
+        if (!te.provides_eval_add_Q_N()) { mat Q2 = mat::Constant(nx, nx, 1); te.eval_add_Q(N, xs, a.hN.topRows(nh_N), Q2); j.v("stage_at_N", Q2.reshaped()); } });
     vec Rwork = vec::Constant(RW, F), Swork = vec::Constant(SW, F);
     method(ms, ob, "eval_add_R_masked", [&](Json &j) { mat R = mat::Constant(lJ, lJ, 1); te.eval_add_R_masked(a.t, a.x, a.h.topRows(nh), a.mJ, R, Rwork); j.v("o", R.reshaped()).v("w", Rwork); });
     method(ms, ob, "eval_add_S_masked", [&](Json &j) { mat S = mat::Constant(lJ, nx, 1); te.eval_add_S_masked(a.t, a.x, a.h.topRows(nh), a.mJ, S, Swork); j.v("o", S.reshaped()).v("w", Swork); });
     method(ms, ob, "eval_add_R_prod_masked", [&](Json &j) { vec o = vec::Constant(lJ, 1); te.eval_add_R_prod_masked(a.t, a.x, a.h.topRows(nh), a.mJ, a.mK, a.v, o, Rwork); j.v("o", o); });
     method(ms, ob, "eval_add_S_prod_masked", [&](Json &j) { vec o = vec::Constant(nx, 1); te.eval_add_S_prod_masked(a.t, a.x, a.h.topRows(nh), a.mK, a.v, o, Swork); j.v("o", o); });
     if (te.provides_eval_constr()) method(ms, ob, "eval_constr", [&](Json &j) { vec o = vec::Constant(nc, F); te.eval_constr(a.t, xs, o); j.v("o", o); });
-    if (te.provides_eval_constr() || te.provides_eval_constr_N()) method(ms, ob, "eval_constr_N", [&](Json &j) { vec o = vec::Constant(std::max(nc, nc_N), F); te.eval_constr_N(xs, o.topRows(nc_N)); j.v("o", o); });
+    if (te.provides_eval_constr() || te.provides_eval_constr_N()) method(ms, ob, "eval_constr_N", [&](Json &j) { vec o = vec::Constant(std::max(nc, nc_N), F); te.eval_constr_N(xs, o.topRows(nc_N)); j.v("o", o);
+        if (!te.provides_eval_constr_N()) { vec o2 = vec::Constant(std::max(nc, nc_N), F); te.eval_constr(N, xs, o2.topRows(nc_N)); j.v("stage_at_N", o2); } });
     if (te.provides_eval_grad_constr_prod()) method(ms, ob, "eval_grad_constr_prod", [&](Json &j) { vec o = vec::Constant(nx, F); te.eval_grad_constr_prod(a.t, xs, a.pc.topRows(nc), o); j.v("o", o); });
-    if (te.provides_eval_grad_constr_prod() || te.provides_eval_grad_constr_prod_N()) method(ms, ob, "eval_grad_constr_prod_N", [&](Json &j) { vec o = vec::Constant(nx, F); te.eval_grad_constr_prod_N(xs, a.pcN.topRows(nc_N), o); j.v("o", o); });
+    if (te.provides_eval_grad_constr_prod() || te.provides_eval_grad_constr_prod_N()) method(ms, ob, "eval_grad_constr_prod_N", [&](Json &j) { vec o = vec::Constant(nx, F); te.eval_grad_constr_prod_N(xs, a.pcN.topRows(nc_N), o); j.v("o", o);
+        if (!te.provides_eval_grad_constr_prod_N()) { vec o2 = vec::Constant(nx, F); te.eval_grad_constr_prod(N, xs, a.pcN.topRows(nc_N), o2); j.v("stage_at_N", o2); } });
     if (te.provides_eval_add_gn_hess_constr()) method(ms, ob, "eval_add_gn_hess_constr", [&](Json &j) { mat o = mat::Constant(nx, nx, 1); te.eval_add_gn_hess_constr(a.t, xs, a.M.topRows(nc), o); j.v("o", o.reshaped()); });
-    if (te.provides_eval_add_gn_hess_constr() || te.provides_eval_add_gn_hess_constr_N()) method(ms, ob, "eval_add_gn_hess_constr_N", [&](Json &j) { mat o = mat::Constant(nx, nx, 1); te.eval_add_gn_hess_constr_N(xs, a.MN.topRows(nc_N), o); j.v("o", o.reshaped()); });
+    if (te.provides_eval_add_gn_hess_constr() || te.provides_eval_add_gn_hess_constr_N()) method(ms, ob, "eval_add_gn_hess_constr_N", [&](Json &j) { mat o = mat::Constant(nx, nx, 1); te.eval_add_gn_hess_constr_N(xs, a.MN.topRows(nc_N), o); j.v("o", o.reshaped());
+        if (!te.provides_eval_add_gn_hess_constr_N()) { mat o2 = mat::Constant(nx, nx, 1); te.eval_add_gn_hess_constr(N, xs, a.MN.topRows(nc_N), o2); j.v("stage_at_N", o2.reshaped()); } });
     method(ms, ob, "check", [&](Json &) { te.check(); });
     out.raw("methods", ms.str());
 }
